@@ -163,6 +163,9 @@ func RunLockstepOpt(addr string, w *model.World, reqs []wire.Req, watchdog time.
 	}
 	defer c.Close()
 	c.Chunk = chunk
+	if pr := host.ProcAt(addr); pr != nil {
+		c.Busy = pr.BusyFunc()
+	}
 	t := &recTransport{c: c, keep: keepResp}
 	o := model.NewOracle(w, t)
 	res.Oracle = o
